@@ -204,6 +204,8 @@ PROPS["C16"] = {
          "shards": {"quick": 1, "thorough": 2}},
         {"name": "windows", "pkg": "./zverif/c16", "run": "^TestVerifC16Windows$", "timeout": {"quick": 400, "thorough": 2400},
          "shards": {"quick": 1, "thorough": 4}},
+        {"name": "extents", "pkg": "./internal/bytecode", "run": "^TestVerifC16Extents$", "timeout": {"quick": 400, "thorough": 2400},
+         "shards": {"quick": 1, "thorough": 2}},
         {"name": "totality-fuzz", "pkg": "./zverif/c16", "run": "^$", "tiers": ("thorough",), "timeout": {"thorough": 900},
          "fuzz": {"target": "^FuzzVerifC16$", "seconds": {"thorough": 240}, "property": "C16"}, "post": fuzz_post},
     ],
@@ -211,14 +213,16 @@ PROPS["C16"] = {
             "test binary with mutated bytes, truncations and random tails) checked against the totality invariants (no panic incl. String(), "
             "1<=Len<=min(15,len), PC-relative field inside the instruction). windows: every prefix of a (real, zero-tailed, mutated or "
             "structured) byte string is decoded before and again after the whole string: totality for the bytes actually supplied and the same answer "
-            "both times (the decoder's answer is a function of its input alone). exact: every function "
+            "both times (the decoder's answer is a function of its input alone). extents: for every function of the test binary whose extent the "
+            "reference walks cleanly, bytecode.GetFuncSize must equal the distance to the next function (instructions across page boundaries included). exact: every function "
             "(pclntab extents) of the test binary and of toolchain binaries walked in lock step with the reference decoder; Len, Op, PCRel, PCRelOff "
             "and goom's own displacement reader (bytecode.DecodeRelativeAddr) must agree, also after the displacement bytes of every 5th PC-relative "
             "instruction are overwritten with 18 boundary values. Non-trivial: a successfully decoded string / instruction; distinct by "
             "(first opcode bytes, Op, PCRel width, length).",
     "assumptions": ["the reference decoder is the toolchain's newer copy of the same upstream package (shared ancestry: a bug common to both is invisible)",
                     "positions the reference cannot decode (AVX2/VEX bodies of hand-written assembly, data in text) end the walk of that function and are counted, not judged"],
-    "floors": [("totality", "decodable-pcrel", 1000), ("exact", "displacement-mutants", 10000), ("windows", "window/long-zero-tail", 500)],
+    "floors": [("totality", "decodable-pcrel", 1000), ("exact", "displacement-mutants", 10000), ("windows", "window/long-zero-tail", 500),
+               ("extents", "extent-agrees", 2000), ("extents", "extent-agrees/instruction-across-a-page-boundary", 20)],
 }
 
 PROPS["C17"] = {
@@ -315,7 +319,8 @@ PROPS["C03"] = {
             "unfaithful), then the mocked function is called from goroutines of generated stack depth 0..700 and must yield the un-mocked function's "
             "result and side effects with the callback running exactly once; refused applies leave both byte ranges unchanged and the function unmocked. "
             "Half of the cases on functions whose signature occurs more than once use the placeholder of another function of that signature, and 0..3 "
-            "functions of the signature are first mocked through the same placeholder, called and reset (a placeholder serves whichever function it was last given to).",
+            "functions of the signature are first mocked through the same placeholder, called and reset (a placeholder serves whichever function it was last given to). "
+            "In a quarter of the cases the function is already mocked through the same builder (plain callback, callback with this placeholder, or Return stub) when the placeholder is asked for.",
     "assumptions": ["reference decoder is the toolchain's x86asm copy", "placeholders lie within +-2GiB of the function (they are functions of the same text segment)"],
     "floors": [("static", "accepted", 5000), ("static", "refused", 20), ("dynamic", "origin-call", 500), ("dynamic", "origin-call/at-generated-depth", 50),
                ("dynamic", "placeholder-of-another-function", 40), ("dynamic", "placeholder-used-by-other-functions-before", 60),
@@ -428,7 +433,7 @@ PROPS["C05"] = {
     "rule": "sequential: the C04 configurations with a result sequence of 1..8 elements (distinct, or with runs of repeated neighbouring values) on the default and on every clause (Return+AndReturn, "
             "Returns(...), or Returns(first m) continued with AndReturn) and 5..60 calls selecting stubs in generated interleavings; oracle: one cursor per stub in the reference model (k-th selecting "
             "call gets element k, later ones the last, stubs advance independently); one case in twenty repeats its last call 4200..9000 times; one in ten has 13..40 clauses. growing: a sequence "
-            "(default or conditional) extended with AndReturn in 1..6 batches of 1..90 results while calls consume it (never reaching the tail before the last extension), then run past the tail. concurrent (race build): one stub with 2..64 elements, 2..16 "
+            "(default or conditional) extended with AndReturn in 1..6 batches of 1..90 results while calls consume it (never reaching the tail before the last extension), then run past the tail. Sequences on a two-result function are also offered an ill-formed row (refused) in the middle of their construction. concurrent (race build): one stub with 2..64 elements, 2..16 "
             "callers behind a spin barrier with generated yields; oracle sound for any schedule: every value is an element, positions never decrease "
             "within a caller, after a call returning the last element has completed every call started later returns the last, no race report. "
             "Non-trivial (sequential): >=2 stubs with >=2 elements and a call beyond a tail; (concurrent) every round; distinct by configuration and "
@@ -453,7 +458,7 @@ PROPS["C09"] = {
             "supplied as ordinary / nil / stand-in struct / stand-in pointer; calls with independently built equal arguments must yield the condition's "
             "result, a call differing in one scalar argument the default. standin-reuse: 2..6 uses of ONE stand-in struct type (by value and by pointer) for "
             "three declared types of identical layout, as Return values and as When conditions. self-typed-values: values of the types goom computes with "
-            "(reflect.Value of 8 payload kinds incl. the zero Value, reflect.Type, []interface{}) as results, boxed into interface{} results and as When conditions. Distinct by (function, supply kinds, codes).",
+            "(reflect.Value of 8 payload kinds incl. the zero Value, reflect.Type, []interface{}) as results, boxed into interface{} results and as When conditions; conditions on interface{} parameters with values of different dynamic types that share storage (zero-size structs, empty named strings, nil slices). Distinct by (function, supply kinds, codes).",
     "assumptions": ["same-size values of a different non-struct type are outside the enumerated guarantees"],
     "floors": [("results", "rejected-wrong-size", 300), ("results", "delivered/untyped-nil/func", 8), ("results", "delivered/standin/struct", 50),
                ("results", "delivered/standin-ptr/ptr", 5), ("results", "delivered/untyped-nil/interface", 50), ("results", "standin/pointer-shaped-struct", 20),
@@ -472,7 +477,7 @@ PROPS["C12"] = {
             "Interface.Method.As / Var). Oracle: last-writer-wins reference model (Apply -> callback; Return/When on a live stub configuration extends it, "
             "after an Apply or a Cancel/Reset starts a fresh one); after every instruction every target is called and must behave by its most recent "
             "instruction. Two targets live in another package and are addressed only as Pkg(p).ExportFunc(name).As / Pkg(p).ExportStruct(\"*t\").Method(name).As; a gc op "
-            "(collection + heap reuse) may come between instructions. Plus a deterministic check that Pkg affects exactly the next lookup. Non-trivial: a history in which some target alternates "
+            "(collection + heap reuse) and a refused interface stub (ill-formed As signature) may come between instructions. Plus a deterministic check that Pkg affects exactly the next lookup. Non-trivial: a history in which some target alternates "
             ">=2 times between callback and stub; distinct by the (op,target) sequence.",
     "assumptions": ["one handle kind per target (Func and ExportFunc on the same function within one builder are not mixed)"],
     "floors": [("histories", "target-with->=2-callback/stub-alternations", 200), ("histories", "pkg-override-next-lookup-only", 1),
@@ -552,7 +557,7 @@ PROPS["C11"] = {
     ],
     "rule": "race build. rapid draws a round: 2..8 mocker goroutines, each with its own builders, looping apply -> call -> re-stub -> call -> reset -> call "
             "over two corpus functions of its own (all targets contiguous in the text, sharing pages with each other and with code being executed; "
-            "some mockers address their targets by name; every third iteration a mocker also mocks a zoo function of its own and re-stubs it with an origin placeholder goom refuses), and 2..8 caller goroutines hammering a steady set mocked before the round (Return stubs and "
+            "some mockers address their targets by name; every third iteration a mocker also mocks a zoo function of its own and re-stubs it with an origin placeholder goom refuses; every mocker also stubs and resets its share of 16 tiny adjacent functions, two per 64-byte line, whose neighbours belong to other mockers; a steady When(k) stub is called with different k by different callers), and 2..8 caller goroutines hammering a steady set mocked before the round (Return stubs and "
             "callbacks forwarding to the origin placeholder of frameless leaves), with generated iteration counts and yield points, all released by a "
             "spin barrier. Oracle: no data-race report with a goom frame, no crash, every steady call yields the mocked result, every mocker sees "
             "exactly its own mock after its apply and the original after its reset, at quiescence the text image is pristine (outside placeholder "
@@ -577,7 +582,7 @@ PROPS["C19"] = {
             "OpenDebug, OpenTrace, off again, and for 1 in 8 in a child process started with GOOM_DEBUG=1. Oracle (metamorphic): the transcripts "
             "(calls, arguments recorded by callbacks, results, panic classes; values by content) are identical. Added scenario kinds: text (long, multi-byte, "
             "invalid-UTF-8 and control-character strings / byte slices / error texts of 0..600 bytes as arguments and results) and origin (zoo functions mocked "
-            "with an origin placeholder; the trampoline written into the placeholder is validated with the reference decoder before the forwarding callback is run). Every scenario is non-trivial; "
+            "with an origin placeholder; the trampoline written into the placeholder is validated with the reference decoder before the forwarding callback is run) and timenow (time.Now, which the logger itself calls, mocked in the four documented ways: same result, bounded number of callback runs). Every scenario is non-trivial; "
             "distinct by (kind, target, value codes).",
     "assumptions": ["self-containing slices/maps reachable through interface{} are not generated (fmt itself overflows the stack on them)"],
     "floors": [("scenarios", "scenario/hostile", 30), ("scenarios", "scenario/hostile2", 20), ("scenarios", "scenario/reapply", 20), ("scenarios", "scenario/iface", 15), ("scenarios", "transcripts-with-a-panic", 10), ("scenarios", "compared-with-GOOM_DEBUG-child", 5)],
